@@ -467,6 +467,18 @@ def eval_tie(ctx, pend, oexe, eexe):
     for c in corpus("C16"):
         if c.get("kind") == "eval":
             progs.append({"text": c["program"], "probe": c["probe"], "kind": c["value_kind"], "want_text": c["expected"], "corpus": c.get("name"), "tags": c.get("tags", [])})
+    # products / quotients over variables whose bounds already coincide (fixed by an earlier read() call or by the propagation that
+    # precedes a rule / constructor body), with free variables and constants: the value is judged on the values the solver reports
+    for p in G.fixed_var_programs(ctx.rng, 1500 if ctx.thorough else 200):
+        progs.append(dict(p, kind="a", dynamic=True))
+    # products with a constant that is exactly zero over unbounded variables, and cancelling sums: valid programs, value 0
+    for k, t, want, probes in G.zero_programs():
+        fam = k.split(":")[0]
+        if want == "OK1":
+            for nme, v in probes.items():
+                progs.append({"text": t, "probe": nme, "kind": "a", "want_text": "r:%d/1" % v, "corpus": k, "tags": [fam]})
+        else:
+            progs.append({"text": t, "probe": "v", "kind": "a", "want_text": "unsolvable", "corpus": k, "tags": [fam]})
     # the program text is what the verified printer writes for the expression
     need = [p for p in progs if "text" not in p]
     shown = lang_lib.run_oracle(oexe, ["showe " + G.sx_expr(p["expr"]) for p in need])
@@ -480,12 +492,16 @@ def eval_tie(ctx, pend, oexe, eexe):
             p["text"] = " ".join(p["decl"]) + " bool q; q == (%s);" % txt
     impl = lang_lib.run_harness(eexe, [p["text"].encode("latin1") for p in progs], jobs=8, tmo=20, as_mb=4096)
     model = lang_lib.run_oracle(oexe, ["eval %s | %s" % (p["env"], G.sx_expr(p["expr"])) if "expr" in p else "eval | (bool 1)" for p in progs])
-    dist = {"arith": 0, "bool": 0, "with-a-false-disjunction": 0, "xor-with-two-true-operands": 0, "redundant-parentheses": 0, "qualified-identifiers": 0}
+    dist = {"arith": 0, "bool": 0, "with-a-false-disjunction": 0, "xor-with-two-true-operands": 0, "redundant-parentheses": 0, "qualified-identifiers": 0,
+            "fixed-bounds": 0, "zero-product": 0, "cancel": 0}
     bad = 0
     nontrivial = set()
     for p, a, m in zip(progs, impl, model):
         kind = p["kind"]
-        if "want" in p:
+        if p.get("dynamic"):
+            w = G.eval_text(p["expr_text"], G.reported_values(a)) if a.startswith("OK solved=1") else None
+            want = ("r:%d/%d" % (w.numerator, w.denominator)) if w is not None else "a solution whose values satisfy v == " + p["expr_text"]
+        elif "want" in p:
             w = p["want"]
             want = ("r:%d/%d" % (w.numerator, w.denominator)) if kind == "a" else ("T" if w else "F")
         else:
@@ -504,7 +520,7 @@ def eval_tie(ctx, pend, oexe, eexe):
         if "xor-repeated" in p["tags"]:
             dist["xor-with-two-true-operands"] += 1    # (once merged as equal literals: fixed in /repo 6b4d509)
         dist["arith" if kind == "a" else "bool"] += 1
-        for t in ("redundant-parentheses", "qualified-identifiers"):
+        for t in ("redundant-parentheses", "qualified-identifiers", "fixed-bounds", "zero-product", "cancel"):
             if t in p["tags"]:
                 dist[t] += 1
         nontrivial.add(p["text"])
@@ -519,8 +535,10 @@ def eval_tie(ctx, pend, oexe, eexe):
         if got != want:
             bad += 1
             top = p["expr"][0] if "expr" in p else "corpus"
-            sig = "eval:%s:%s" % ("arith" if kind == "a" else "bool", "abort" if lang_lib.outcome_class(a) in ("ABORT", "HANG") else "unsolvable" if got == "unsolvable" else "value")
+            fam = next((t for t in ("fixed-bounds", "zero-product", "cancel") if t in p["tags"]), "arith" if kind == "a" else "bool")
+            sig = "eval:%s:%s" % (fam, "abort" if lang_lib.outcome_class(a) in ("ABORT", "HANG") else "unsolvable" if got == "unsolvable" else "value")
             pend.violation(sig, {"kind": "evaluation", "program": p["text"], "expected": want, "implementation": got, "top_operator": top,
+                                 "reads": p["text"].count(G.READ_SEP) + 1, "family": p.get("corpus") or ",".join(p["tags"]), "values_reported": a[:400],
                                  "replay_cmd": "echo %s | %s" % (p["text"].encode("latin1").hex(), eexe)})
     cov["evaluation"] = {"programs": len(progs), "by_kind": dist, "disagreements": bad}
     return len(progs), bad, nontrivial
@@ -573,7 +591,9 @@ def run(ctx):
                    "(depth <= 8, all node kinds), texts with redundant parentheses around identifiers as operands of every operator (tree tier and value tier), "
                    "token mutations (a tree disagreement on an input both sides accept is searched end to end: bound identifiers, real planner vs model value), and a subset of all of these parsed AND destroyed under ASan/UBSan/LSan; evaluation: random LINEAR "
                    "arithmetic trees over literals and pinned variables, boolean formulas over pinned variables and relations; non-trivial = "
-                   "more than 4 tokens / a distinct tree / a distinct program")
+                   "more than 4 tokens / a distinct tree / a distinct program; products and quotients over variables whose bounds already coincide "
+                   "(earlier read() call, rule / constructor / method bodies) in every operand position, products with a zero constant over "
+                   "unbounded variables and cancelling sums, judged with exact arithmetic on the reported values")
     ctx.sample({"lexer_inputs": n1, "parser_programs": n2, "evaluation_programs": n3})
     cov["trusted_base"] += [
         "oracle/lang_io.ml, lang_main.ml (S-expression reader/printer, decimal printing) and harness/h_lex.cpp, h_parse.cpp, h_eval.cpp, lang_common.h",
